@@ -46,6 +46,7 @@ Init ==
   /\ v = VOk
 
 \* ------------------------------------------------------------------ observation helpers
+IdsInPriority(L, isBuy) == LET q == Sorted(Side(L, isBuy)) IN [k \in 1..Len(q) |-> q[k].id]
 ObsBook(e) == {<<e.book[k][1], e.book[k][2]>> : k \in 1..Len(e.book)}
 RowSeq(r) == <<r.mkt, r.last, r.mid, r.eVol, r.eTot, r.nB, r.nS>>
 
@@ -54,7 +55,9 @@ SnapV(vv, e, m2, what) ==
   LET r == m2.row  o == e.row IN
   [vv EXCEPT
      !.C04 = F(@, ObsBook(e) # BookOf(m2.live), "C04:book-after-" \o what),
-     !.C02 = F(@, e.bB # BestId(m2.live, TRUE) \/ e.bS # BestId(m2.live, FALSE), "C02:best-after-" \o what),
+     !.C02 = F(F(@, e.bB # BestId(m2.live, TRUE) \/ e.bS # BestId(m2.live, FALSE), "C02:best-after-" \o what),
+               \* the order in which a round would take the resting orders is the priority order
+               e.oB # IdsInPriority(m2.live, TRUE) \/ e.oS # IdsInPriority(m2.live, FALSE), "C02:queue-order-after-" \o what),
      !.C08 = F(F(F(F(F(F(F(F(F(@,
                e.pB # BestPx(m2.live, TRUE) \/ e.pS # BestPx(m2.live, FALSE), "C08:best-price-after-" \o what),
                e.dB # Depth(m2.live, TRUE) \/ e.dS # Depth(m2.live, FALSE), "C08:depth-after-" \o what),
